@@ -1,17 +1,17 @@
 SPECIFICATION Spec
 CONSTANTS
-  NS = 1
-  NF = 2
-  MAXFR = 4
-  VALS = {0, 1}
-  THR = 0
-  PATTERN = TRUE
-  OM0 = 0
+  NS = 2
+  NF = 3
+  MAXFR = 1
+  VALS = {0, 2, 3}
+  THR = 1
+  PATTERN = FALSE
+  OM0 = 1
   OMSTEP = 1
-  OMSEQ <- SeqUpZeroDown
+  OMSEQ <- NoSeq
   VSHIFT = 0
   MAXFIX = FALSE
-  NANV <- Neg1
+  NANV = 3
   EMITSTEPS = TRUE
 INVARIANT NoBad
 INVARIANT ShapeOK
